@@ -62,6 +62,8 @@ func (r *Run) fault(k CallKey) error {
 		return fmt.Errorf("%w (with a value) at %s", ErrInjected, k)
 	case FaultWrapped:
 		return fmt.Errorf("while resolving %s: %w", k, ggql.Errors{fmt.Errorf("%w one at %s", ErrInjected, k), fmt.Errorf("%w two at %s", ErrInjected, k)})
+	case FaultTwoCauses:
+		return &twoCauses{msg: fmt.Sprintf("%v with two causes at %s", ErrInjected, k), causes: []error{ErrInjected, fmt.Errorf("another cause")}}
 	case FaultTwin:
 		return ggql.Errors{fmt.Errorf("%w twin at %s", ErrInjected, k), fmt.Errorf("%w twin at %s", ErrInjected, k)}
 	case FaultShared:
@@ -73,6 +75,15 @@ func (r *Run) fault(k CallKey) error {
 	}
 	return nil
 }
+
+// twoCauses is one error with two causes.
+type twoCauses struct {
+	msg    string
+	causes []error
+}
+
+func (e *twoCauses) Error() string   { return e.msg }
+func (e *twoCauses) Unwrap() []error { return e.causes }
 
 func (r *Run) record(n *Node, field string, args map[string]interface{}) {
 	if r.NoLog {
